@@ -17,4 +17,9 @@ Parse(c) == IF Legacy THEN ParseCellLegacy(c) ELSE ParseCell(c)
 RoundTrip == l = 1 => \A m \in Metrics : Parse(HeaderCell(g, m)) = <<g, m>>
 Injective == l = 1 => \A m, k \in Metrics : HeaderCell(g, m) = HeaderCell(h, k) => (g = h /\ m = k)
 MetricsDashFree == \A m \in Metrics : NoDashIn(m)
+\* quoting: every row of two cells over a small alphabet with the special characters survives write + read
+QAlphabet == {"a", TAB, DQ, LF, " "}
+QCells == UNION {[1..n -> QAlphabet] : n \in 0..3}
+QuoteRoundTrip == \A c \in QCells, d \in QCells : ParseRow(RowText(<<c, d>>)) = <<c, d>>
+ASSUME QuoteRoundTrip
 =============================================================================
